@@ -31,6 +31,7 @@ type C05Case struct {
 	Kind  int     `json:"kind"` // 0 Streamable stateful, 1 legacy SSE, 2 stdio
 	NSess int     `json:"nsess"`
 	Ops   []C05Op `json:"ops"`
+	MW    int     `json:"mw,omitempty"` // number of pass-through middlewares configured on the server (0..2)
 }
 
 func genC05(t *rapid.T) C05Case {
@@ -39,6 +40,7 @@ func genC05(t *rapid.T) C05Case {
 	if c.Kind == 2 {
 		c.NSess = 1
 	}
+	c.MW = rapid.SampledFrom([]int{0, 0, 1, 2}).Draw(t, "mw")
 	n := rapid.IntRange(1, 12).Draw(t, "nops")
 	for i := 0; i < n; i++ {
 		ops := []string{"notify", "notify", "notify", "broadcast", "filtered", "roots", "roots", "rootspair", "close", "reopen"}
@@ -139,7 +141,15 @@ func (cw *c05World) openStream(s *refSess) *Failure {
 func execC05(c C05Case) *Failure {
 	cw := &c05World{c: c}
 	modes := []Mode{ModeSJ, ModeLegacy, ModeStdio}
-	cw.w = NewWorld(modes[c.Kind], RegSpec{}, WorldOpt{NoUnix: true})
+	wo := WorldOpt{NoUnix: true}
+	for i := 0; i < c.MW; i++ {
+		pass := func(next mcp.HandlerFunc) mcp.HandlerFunc {
+			return func(ctx context.Context, req *mcp.JSONRPCRequest) (mcp.JSONRPCMessage, error) { return next(ctx, req) }
+		}
+		wo.ServerOpts = append(wo.ServerOpts, mcp.WithMiddleware(pass))
+		wo.SSEOpts = append(wo.SSEOpts, mcp.WithSSEMiddleware(pass))
+	}
+	cw.w = NewWorld(modes[c.Kind], RegSpec{}, wo)
 	w := cw.w
 	if w.unix != nil {
 		// the legacy world starts a unix server by default; this property drives the handler in-process
